@@ -42,9 +42,13 @@ class FsCfg(EmitterCfg):
         return fs_alias(text)
 
 
+BATCH = ["events"]  # name of the batch parameter of FSEventsEmitter.queue_events (set from the source in run())
+
+
 def fs_alias(text: str) -> str:
-    text = text.replace("events.pop(0)", "ev")
-    text = re.sub(r"next\(iter\(\(e for e in events if e\.is_renamed and e\.inode == ev\.inode\)\), None\)", "dst", text)
+    b = re.escape(BATCH[0])
+    text = re.sub(rf"\b{b}\.pop\(0\)", "ev", text)
+    text = re.sub(rf"next\(iter\(\((\w+) for \1 in {b} if \1\.is_renamed and \1\.inode == ev\.inode\)\), None\)", "dst", text)
     return text
 
 
@@ -139,8 +143,12 @@ def run(ctx) -> None:
     ff = P.find_method("FSEventsEmitter", "queue_events")
     if ff is None:
         raise AnalysisError("anchor vanished: FSEventsEmitter.queue_events")
+    fparams = [a.arg for a in ff.node.args.args]
+    if len(fparams) < 3:
+        raise AnalysisError("FSEventsEmitter.queue_events: batch parameter not found")
+    BATCH[0] = fparams[2]
     fpaths = Enumerator(FsCfg(P, {})).run(ff, selfcls="FSEventsEmitter")
-    wl = find_loops(fpaths, lambda e: e.extra.get("kind") == "while" and e.text == "events")
+    wl = find_loops(fpaths, lambda e: e.extra.get("kind") == "while" and e.text == BATCH[0])
     if not wl:
         raise AnalysisError("anchor vanished: `while events:` loop of FSEventsEmitter.queue_events")
     fbody = wl[0].extra["paths"]
